@@ -153,6 +153,13 @@ macro_rules! parse_alloc {
     };
 }
 
+// @harness prop=C02 tier=quick timeout=900 role=install-tag-mask-alloc
+// @bounds 8 symbolic bytes (name, type, a few mask bytes), entry_count = 0xFFFF_FFFF (largest value a manifest header can carry: 512 MiB mask)
+// @encodes cascette_formats::install::tag::InstallTag::read_options
+// @assumes std::fmt::format stubbed; allocator spy
+// @catches regression of patch install_tag: bit mask buffer allocated from the header's entry count before the remaining input is known (512 MiB request from a 14-byte manifest)
+rec_total!(c02_install_tag_alloc_n8, 8, 10, false, "InstallTag::read: bit mask allocation out of proportion to input", |c, d| InstallTag::read_options(&mut c, Endian::Big, 0xFFFF_FFFFu32));
+
 // ---- whole-file parsers, count fields symbolic (allocation focus) -------------------------------------------
 // NOT REGISTERED (measured on the patched tree /tmp/wt-c02fix: 900 s timeout each, also with one count field fixed to 0 - CBMC does not
 // propagate the concrete header bytes through Cursor/read_exact, so the tag / entry record readers (name loops, UTF-8 validation,
